@@ -32,7 +32,7 @@ from hsim.worlds.udp import Arrival, UdpWorld
 
 PROPERTY = "C14"
 CHUNK = {"quick": 12, "thorough": 30}
-PROBES = ["observer_notified", "avatar_child_announced", "seat_killed_under_avatar", "avatar_orphan_survives_kill_of_unknown_seat",
+PROBES = ["region_tracked_again_after_teardown", "observer_notified", "avatar_child_announced", "seat_killed_under_avatar", "avatar_orphan_survives_kill_of_unknown_seat",
           "orphan_adopted", "cascade_depth_2", "local_id_reuse_after_kill", "cross_region_move",
           "kill_unknown_with_orphans", "pending_both_kinds_on_killed_object", "same_object_twice_in_one_message",
           "reparent", "kill_of_parent", "teardown_with_pending", "precondition_broken", "duplicate_update_delivered",
@@ -120,6 +120,14 @@ def gen_plan(rng: random.Random, tier: str) -> dict:
 
     for _ in range(n):
         t = round(t + rng.choice([0.0, 0.0, 0.001, 0.01, 0.05, 0.2]), 4)
+        dead = [r for r in (0, 1) if not alive[r]]
+        if dead and rng.random() < 0.35:
+            # the agent comes back to a region it had left: circuit re-opened, handshake, scene announced afresh
+            r = rng.choice(dead)
+            alive[r] = True
+            steps.append({"at": t, "op": "revive", "r": r})
+            t = round(t + 0.1, 4)
+            continue
         live = [r for r in (0, 1) if alive[r]]
         if not live:
             break
@@ -248,7 +256,7 @@ def gen_plan(rng: random.Random, tier: str) -> dict:
             pick = rng.sample(fulls, min(len(fulls), 2)) if fulls and rng.random() < 0.8 else [rng.randint(1, N_FULLS)]
             steps.append({"at": t, "op": "props", "r": r, "fulls": pick, "family": rng.random() < 0.3, "salt": salt,
                           "fate": fate()})
-        elif x < 0.97:
+        elif x < 0.955:
             kind = rng.choice(["objects", "objects", "props", "missing"])
             pool = sorted(scene[r]) + sorted(pending_parents[r]) + [rng.randint(1, N_LOCALS)]
             locals_ = sorted(set(rng.sample(pool, min(len(pool), rng.randint(1, 2)))))
@@ -568,7 +576,12 @@ def run_plan(plan: dict) -> RunResult:
                             res.probe("timeout_cancelled_future")
                     loop.create_task(waiter())
 
-        ops = {"upd": op_upd, "terse": op_terse, "cached": op_cached, "kill": op_kill, "props": op_props,
+        def op_revive(st):
+            res.fault("region_left_and_entered_again")
+            driver.op_ucc({"v": 0, "r": st["r"]})
+            loop.call_later(0.03, handshake, st["r"])
+
+        ops = {"revive": op_revive, "upd": op_upd, "terse": op_terse, "cached": op_cached, "kill": op_kill, "props": op_props,
                "teardown": op_teardown, "req": op_req}
         for i, st in enumerate(plan["steps"]):
             def _run(i=i, st=st):
@@ -670,6 +683,8 @@ def run_plan(plan: dict) -> RunResult:
             env.ab("D", kind, r)
             now = a.t
             if kind == "handshake":
+                if r not in model.regions and r in torn_down:
+                    res.probe("region_tracked_again_after_teardown")
                 model.track_region(r)
             elif kind == "upd":
                 # probes about timing
@@ -708,6 +723,7 @@ def run_plan(plan: dict) -> RunResult:
                        for f in futures):
                     res.probe("teardown_with_pending")
                 model.teardown(r)
+                torn_down.add(r)
             if model.broken is not None:
                 res.probe("precondition_broken")
                 res.extra["precondition_broken:" + model.broken] = 1
@@ -740,6 +756,7 @@ def run_plan(plan: dict) -> RunResult:
                                for f in futures):
                             res.probe("futures_resolved_by_update")
         killed_locals: List[Set[int]] = [set(), set()]
+        torn_down: Set[int] = set()
         world.arrival_hooks.append(on_arrival)
 
         end = (plan["steps"][-1]["at"] if plan["steps"] else 0.3) + cfg.get("tail", 1.0)
